@@ -96,7 +96,14 @@ package tabula
 //@   flags frameonly, releases
 //@ func (*Extractor) Document
 //@   property C10
-//@   flags frameonly, releases
+//@   flags nosafety, releases
+//@   callsite AddPage(p) requires p.Number == pageNum + 1
+//@   loop 6:
+//@     invariant modelPage.Number == pageNum + 1
+//@   loop 7:
+//@     invariant modelPage.Number == pageNum + 1
+//@   loop 8:
+//@     invariant modelPage.Number == pageNum + 1
 
 // Close releases what the extractor owns and clears the ownership flags; when there is nothing (left) to close it
 // returns nil and changes nothing — so closing again is harmless.
